@@ -365,7 +365,8 @@ Inductive op :=
              owes was fixed when it was sent ([t_tax]) *)
 | OMapGov (c d k : Z)                             (* setDenomToERC20 through a governance path: no guard *)
 | OMapAdmin (c d k : Z) (auth : bool) (f : fault) (* msgServer.SetERC20ToTokenDenom *)
-| OEndBlockFull (h now : Z) (groups : list (list event)) (ests : list (Z * Z * Z)) (f pf : fault).
+| OEndBlockFull (h now : Z) (groups : list (list event)) (ests : list (Z * Z * Z)) (f pf : fault)
+| OGenesis.   (* ExportGenesis, the module's store wiped, InitGenesis *)
 
 (** *** the whole EndBlocker, with panics.  [eb] threads the state, the number of collaborator
     calls made so far in this block, the all-or-nothing sub-steps run so far (ghost trace) and
@@ -472,6 +473,16 @@ Definition end_block_full (f pf : fault) (h now : Z) (groups : list (list event)
   let x3 := eb_gas f pf ests x2 in
   fst (eb_sweep f pf (batches (eb_s x3)) now x3).
 
+(** *** the chain is restarted from an exported genesis.  ExportGenesis reads the WHOLE pool
+    (GetUnbatchedTransactions), ALL batches (GetOutgoingTxBatches), both indexes of the denom table
+    (after "fix: export the ERC20 -> denom entries of contracts a denom was mapped to before") and the
+    two id counters; InitGenesis stores every batch (StoreBatch), re-adds every pool transfer
+    (addUnbatchedTX) and replays the table writes.  The bank ledger (balances, escrow, supply) is the
+    bank module's own genesis. *)
+Definition genesis (s : state) : state :=
+  set_batches (set_pool s (pool_insert_all (pool s) []))
+              (fold_left (fun acc b => batch_insert b acc) (batches s) []).
+
 Definition step3 (s : state) (o : op) : state * outcome * nat :=
   match o with
   | OSend u c d a tax lim f => atomically s (send_raw f u c d a tax lim s) (* baseapp: message in a transaction *)
@@ -489,6 +500,7 @@ Definition step3 (s : state) (o : op) : state * outcome * nat :=
   | OMapAdmin c d k auth f => atomically s (map_admin_raw f c d k auth s) (* message in a transaction *)
   | OEndBlockFull h now groups ests f pf =>
       let x := end_block_full f pf h now groups ests s in (eb_s x, Ok, eb_n x)
+  | OGenesis => (genesis s, Ok, 0%nat)
   end.
 Definition step (s : state) (o : op) : state * outcome := fst (step3 s o).
 Definition run (s : state) (ops : list op) : state := fold_left (fun s o => fst (step s o)) ops s.
